@@ -626,11 +626,15 @@ func evalTree(n *enode, env *evalEnv) (*variants.Variant, string) {
 		}
 		return nil, "bad const"
 	case "var":
-		v := env.vars.FindByName(unquoteIdent(n.name))
-		if v == nil {
-			return nil, "error:VAR_NOT_FOUND"
+		// the reference resolves a name itself: the first entry, in the order of addition, whose name
+		// matches without regard to letter case
+		want := strings.ToUpper(unquoteIdent(n.name))
+		for _, v := range env.vars.GetAll() {
+			if v != nil && strings.ToUpper(v.Name()) == want {
+				return v.Value(), ""
+			}
 		}
-		return v.Value(), ""
+		return nil, "error:VAR_NOT_FOUND"
 	case "call":
 		args := []*variants.Variant{}
 		for _, k := range n.kids {
